@@ -46,6 +46,13 @@ SCENARIOS: list[dict[str, Any]] = [
     {"name": "dup-critical-section", "queue": ["x", "x"], "pollers": [("A", 2), ("B", 2)], "mem_files": ("pynenc/orchestrator/mem_orchestrator.py",), "dfs": (2, 4, 2, 4),
      "stdlib_files": ("weakref",),
      "mem_funcs": ("_atomic_status_transition", "_get_invocation_lock", "_interanl_atomic_status_transition", "setdefault", "__setitem__", "__getitem__", "get", "pop")},
+    # SQLite only: the busy time-out of one poller expires at its k-th locked statement ("database is locked" reaches the code under test)
+    {"name": "busy-dup-A0", "queue": ["x", "x"], "pollers": [("A", 2), ("B", 2)], "busy_faults": [("poll-A", 0)]},
+    {"name": "busy-dup-B0", "queue": ["x", "x"], "pollers": [("A", 2), ("B", 2)], "busy_faults": [("poll-B", 0)]},
+    {"name": "busy-dup-B1", "queue": ["x", "x"], "pollers": [("A", 2), ("B", 2)], "busy_faults": [("poll-B", 1)]},
+    {"name": "busy-dup-AB", "queue": ["x", "x"], "pollers": [("A", 2), ("B", 2)], "busy_faults": [("poll-A", 1), ("poll-B", 0)]},
+    {"name": "busy-retry-B0", "queue": ["x", "x"], "retry": True, "pollers": [("A", 1), ("B", 1)], "busy_faults": [("poll-B", 0)]},
+    {"name": "busy-retry-A0", "queue": ["x", "x"], "retry": True, "pollers": [("A", 1), ("B", 1)], "busy_faults": [("poll-A", 0)]},
     {"name": "release-race-all-lines", "queue": [], "release_race": True, "pollers": [("B", 1), ("C", 1)], "mem_files": ("pynenc/orchestrator/mem_orchestrator.py",), "extras_first": True, "dfs": (0, 0, 2, 16)},
 ]
 
@@ -242,6 +249,7 @@ def run_scenario(kind: str, sc: dict, policy: sched.Policy, clock: vclock.VClock
     tf = (sched.trace_file_set(*files) | _std) if kind == "mem" else sched.trace_file_set("pynenc/core_tasks.py", *(HISTORY_FILES[1:] if shared.get("trace_history") else ()))
     s = sched.Scheduler(policy, clock=clock, trace_files=tf, max_steps=60_000, quantum_us=0, trace_funcs=set(sc["mem_funcs"]) if (kind == "mem" and sc.get("mem_funcs")) else None)
     env.poll_errors = []
+    s.busy_faults = {tuple(x) for x in sc.get("busy_faults", ())}  # type: ignore[attr-defined]
     # claim-window tracking for the non-triviality rule: a forced switch while some poller is inside get_invocations_to_run
     env.in_poll = {"n": 0, "switch_inside": 0}
 
@@ -331,7 +339,7 @@ def shard(kind: str, sc_idx: int, mode: str, p_max: int, runs: int, seed: int, k
                 nt = special and forced >= 1 and inside
             part.case(key=(kind, sc["name"], tuple(s.choices)), nontrivial=nt,
                       classes=[f"backend_{kind}", f"sc_{sc['name']}", f"mode_{mode}", f"forced{min(forced, 3)}", "switch_in_claim_window" if inside else "no_switch_in_window",
-                               f"claims{min(nclaims, 4)}", "poll_raised" if env.poll_errors else "poll_ok"],
+                               f"claims{min(nclaims, 4)}", "poll_raised" if env.poll_errors else "poll_ok"] + (["busy_timeout_fired" if getattr(s, "busy_fired", None) else "busy_timeout_not_reached"] if sc.get("busy_faults") else []),
                       sample={"backend": kind, "scenario": sc["name"], "steps": s.step, "choices": s.choices[:60],
                               "transitions": [(t["inv"][:6], t["status"], t["by"]) for t in env.mon.transitions][:20]})
             if s.failure is not None:
@@ -359,6 +367,8 @@ def plan(ctx: Ctx) -> list[tuple]:
     jobs = []
     for kind in ("mem", "sqlite"):
         for i, sc in enumerate(SCENARIOS):
+            if sc.get("busy_faults") and kind != "sqlite":
+                continue
             nact = len(sc["pollers"]) + (2 if (sc.get("recovery") or sc.get("kill") or sc.get("aba")) else 0) + (1 if (sc.get("batch") or sc.get("release_race")) else 0)
             if sc.get("dfs"):
                 pq, nq, pt, nt_ = sc["dfs"]  # complete search with <= p forced switches, split over n processes
